@@ -125,6 +125,30 @@ class Ctx:
         self.solver.add(cond if v else z3.Not(cond))
         return v
 
+    def choose(self, t):
+        """n-ary decision: pick a concrete value for bit-vector term `t`; one path per feasible value.
+        Prefix entries ('v', value, excluded) replay the same value; ('more', None, excluded) asks for
+        a value different from the ones already handed to sibling paths."""
+        if self.pos < len(self.prefix):
+            kind, val, excl = self.prefix[self.pos]
+            for e in excl:
+                self.solver.add(t != e)
+            if kind == "v":
+                self.pos += 1
+                self.solver.add(t == val)
+                return val
+            self.prefix.pop()           # 'more': becomes a fresh choice below
+        else:
+            excl = []
+        if self._check() != z3.sat:
+            raise PathEnd("no further value")
+        val = self.solver.model().eval(t, model_completion=True).as_signed_long()
+        self.pending.append(self.prefix + [("more", None, excl + [val])])
+        self.prefix.append(("v", val, excl))
+        self.pos += 1
+        self.solver.add(t == val)
+        return val
+
     def assume(self, cond):
         if isinstance(cond, bool):
             if not cond:
@@ -153,7 +177,7 @@ class Ctx:
 
     def prove(self, label, cond, info=None):
         """Obligation `cond` under the current path condition. Returns status."""
-        path = "".join("T" if d else "F" for d in self.prefix[: self.pos])
+        path = "".join(("T" if d else "F") if isinstance(d, bool) else "<%s>" % d[1] for d in self.prefix[: self.pos])
         if isinstance(cond, bool) and not cond and self.deferred:
             cond = z3.BoolVal(False)  # the path may be infeasible once the opaque definitions are used
         if isinstance(cond, bool):
@@ -582,11 +606,7 @@ class SymInt:
             self.tighten()
         if self.hi - self.lo + 1 > limit:
             raise Unsupported("cannot concretise integer with %d candidates" % (self.hi - self.lo + 1))
-        for v in range(self.lo, self.hi):
-            if c.decide(self.t == v):
-                return v
-        c.assume(self.t == self.hi)
-        return self.hi
+        return c.choose(self.t)
 
     def tighten(self):
         """semantic min/max under the current path condition (binary search with the solver)"""
@@ -801,7 +821,8 @@ class SymBytes:
 
     def __getitem__(self, k):
         if isinstance(k, slice):
-            k = slice(_conc(k.start), _conc(k.stop), _conc(k.step))
+            n = len(self.items)
+            k = slice(_conc_bound(k.start, n), _conc_bound(k.stop, n), _conc(k.step))
             return SymBytes(self.items[k], self.mutable)
         if isinstance(k, SymInt):
             n = len(self.items)
@@ -888,6 +909,18 @@ def _conc(x):
     if isinstance(x, SymInt):
         return x.concretize()
     return x
+
+
+def _conc_bound(x, n):
+    """slice bound of a sequence of length n: all values >= n (resp. <= -n) behave alike"""
+    if not isinstance(x, SymInt):
+        return x
+    c = ctx()
+    if x.hi >= n and c.decide(x.t >= n):
+        return n
+    if x.lo <= -n and c.decide(x.t <= -n):
+        return -n
+    return SymInt(x.t, max(x.lo, -n + 1), min(x.hi, n - 1)).concretize(limit=4 * n + 8)
 
 
 class _BytesDecl:
